@@ -801,6 +801,7 @@ def transportConnectModelRow (sc : List String) : List String :=
 def noTimeLimit (eff : List String) : List String :=
   eff.filter (fun e => !(e == "setDeadline" || e == "clearDeadline"))
 
+set_option maxRecDepth 32768 in
 /-- the extracted exit structure of `(*Dialer).connect` and `(*connGroup).connect` is the model's: same calls,
 closed on exactly the same paths, a connection returned exactly when the model reaches `ready` -/
 theorem connect_flows_are_the_model :
@@ -823,9 +824,41 @@ def underTimeLimit (effs : List String) : Bool :=
       else if e == "return:conn" then (st.1, st.2 && !st.1)
       else st) (false, true)).2
 
+set_option maxRecDepth 32768 in
 theorem connect_flows_run_under_the_time_limit :
-    Gen.MuxFacts.dialerConnectFlow.all (fun (_, eff) => underTimeLimit eff) = true ∧
+    Gen.MuxFacts.dialerConnectFlow.all (fun (sc, eff) => !cflag sc "ctxHasDeadline" || underTimeLimit eff) = true ∧
     Gen.MuxFacts.transportConnectFlow.all (fun (_, eff) => underTimeLimit eff) = true := by
+  decide
+
+/-- **the time limit decides nothing else** (seed C18-m7 moved the SASL exchange under `if deadline, ok := ctx.Deadline()`:
+with `Timeout == 0`, a zero `Deadline` and a context without deadline the Conn went out unauthenticated).  Model: a run
+does not depend on `Cfg.limit`.  Code: `connect_flows_are_the_model` compares EVERY row of `dialerConnectFlow` — the
+table now has `ctxHasDeadline` as a dimension of its own — with a model row that does not look at that flag, so the
+calls made (`split`, `auth`, `close`) and the value returned are the same with and without a deadline; and rows that
+differ only in that flag differ only by the deadline bookkeeping: -/
+theorem time_limit_decides_nothing (c : Cfg) (b : Bool) (es : List Env) :
+    run { c with limit := b } es = run c es := by
+  have hstep : ∀ (s : State) (e : Env), step { c with limit := b } s e = step c s e := by
+    intro s e; unfold step react; rfl
+  have hrun : ∀ (es : List Env) (s : State), runFrom { c with limit := b } s es = runFrom c s es := by
+    intro es
+    induction es with
+    | nil => intro s; rfl
+    | cons e es ih => intro s; simp only [runFrom, hstep]; split <;> simp [ih]
+  have hstart : start { c with limit := b } = start c := by unfold start; rfl
+  simp [run, hstart, hrun]
+
+/-- the configuration flags that only say whether (and how) the dial is limited in time -/
+def isLimitFlag (x : String) : Bool :=
+  x == "ctxHasDeadline=true" || x == "ctxHasDeadline=false" || x == "hasTimeout=true" || x == "hasTimeout=false" ||
+  x == "noDeadline=true" || x == "noDeadline=false"
+
+set_option maxRecDepth 16384 in
+theorem dialer_rows_agree_across_the_time_limit :
+    Gen.MuxFacts.dialerConnectFlow.all (fun (sc, eff) =>
+      Gen.MuxFacts.dialerConnectFlow.all (fun (sc', eff') =>
+        !(sc.filter (fun x => !isLimitFlag x) == sc'.filter (fun x => !isLimitFlag x)) ||
+        noTimeLimit eff == noTimeLimit eff')) = true := by
   decide
 
 /-! ## raw versus framed: the two places that decide it, re-extracted -/
